@@ -103,6 +103,11 @@ func oracle(prop string, seed int64, n int, args []string) int {
 		if args[i] == "--case" {
 			single = args[i+1]
 		}
+		if args[i] == "--casefile" {
+			if b, err := os.ReadFile(args[i+1]); err == nil {
+				single = strings.TrimSpace(string(b))
+			}
+		}
 	}
 	f, ok := oracles[prop]
 	if !ok {
@@ -449,12 +454,12 @@ func (g *G) hostileFrames(n int, emit func(f []byte)) {
 					emit(append(append([]byte{f[0]}, vbEnc(uint64(len(body)))...), body...))
 				}
 			} else {
-				emit(g.mutate(f))
+				emit(g.mutate1(f))
 			}
 		case 2:
-			emit(g.mutate(f))
+			emit(g.mutate1(f))
 		case 3:
-			emit(g.mutate(g.mutate(f)))
+			emit(g.mutate1(g.mutate1(f)))
 		case 4: // every type nibble over this body
 			for nb := 0; nb < 16; nb++ {
 				ff := append([]byte{}, f...)
@@ -857,6 +862,34 @@ func oracleC07(r *report, g *G, n int, single string) {
 		f := g.seqFrame()
 		checkFrame(f, len(f) <= 10)
 	}
+	// byte strings that are not frames: over-long or unterminated remaining lengths, random bytes
+	// (the same rejection must result under every delivery)
+	for i := 0; i < n/4+20; i++ {
+		var f []byte
+		switch g.pick(4) {
+		case 0: // five-byte remaining length, terminated
+			f = []byte{byte(g.pick(256)), byte(128 + g.pick(128)), byte(128 + g.pick(128)), byte(128 + g.pick(128)), byte(128 + g.pick(128)), byte(g.pick(128))}
+			f = append(f, g.bytesN(g.pick(3))...)
+		case 1: // 2-4 byte remaining length, possibly non-minimal, with a matching body
+			hdr := []byte{byte(128 + g.pick(128)), byte(g.pick(2))}
+			if g.chance(40) {
+				hdr = []byte{byte(128 + g.pick(4)), 128, byte(g.pick(2))}
+			}
+			rl, _ := splitFrame(append([]byte{0}, hdr...))
+			if rl > 600 {
+				rl = 0
+				hdr = []byte{0x80, 0x00}
+			}
+			f = append(append([]byte{byte(g.pick(256))}, hdr...), g.bytesN(rl)...)
+		case 2:
+			f = g.bytesN(1 + g.pick(9))
+		default:
+			f = g.mutate(g.seqFrame())
+		}
+		if len(f) > 0 && len(f) < 400 {
+			checkFrame(f, len(f) <= 10)
+		}
+	}
 	r.sample(map[string]string{"frame": "40020007", "schedules": "all 8 compositions x zero-length reads x EOF styles"})
 }
 
@@ -1180,6 +1213,10 @@ func oracleC10(r *report, g *G, n int, single string) {
 		}
 		for _, kk := range ks {
 			e := injectedErr(1 + g.pick(9))
+			if kk%3 == 1 {
+				// errors a writer may well return: the library must hand back whatever it gets
+				e = []error{io.ErrShortWrite, io.EOF, io.ErrClosedPipe, io.ErrUnexpectedEOF}[g.pick(4)]
+			}
 			sw := &scriptWriter{mode: 'S', k: kk, err: e}
 			n2, err2 := p.WriteTo(sw)
 			if len(sw.calls) != 1 || !bytesEq(sw.calls[0], f) || int(n2) != kk || err2 != e {
@@ -1519,6 +1556,7 @@ func (s *specPkt) snapshot() string {
 }
 
 func oracleC12(r *report, g *G, n int, single string) {
+	inDomain := false
 	check := func(k int, cs []string) {
 		c := "H " + strconv.Itoa(k) + sp(cs)
 		defer func() {
@@ -1537,7 +1575,15 @@ func oracleC12(r *report, g *G, n int, single string) {
 				return
 			}
 		}
-		// the encoded frame reflects the same final state (within the C01 domain)
+		// the encoded frame reflects the same final state: read it back (for states inside
+		// the C01 domain, where everything set is carried by the frame)
+		if inDomain {
+			f := frameOf(p)
+			o := readOnce(oneChunk(f))
+			if o.kind != k || o.snap != s.snapshot() {
+				r.fail("frame-does-not-reflect-state", c, "frame "+trunc(hexs(f))+" reads back as "+trunc(o.verdict())+" expected "+trunc(s.snapshot()))
+			}
+		}
 		r.eval(fmt.Sprintf("type%d-len%d", k, min(len(cs), 9)), len(cs) >= 2, c)
 	}
 	if single != "" {
@@ -1601,11 +1647,36 @@ func oracleC12(r *report, g *G, n int, single string) {
 		k := g.kind()
 		g.big = g.chance(3)
 		g.domain = g.chance(70)
+		inDomain = g.domain
 		cs := g.calls(k, 1+g.pick(12))
 		g.domain = false
+		if inDomain {
+			cs = lastWriteDomain(k, cs)
+		}
 		check(k, cs)
+		inDomain = false
+	}
+	// credentials in every combination and order, frame read back
+	for _, cs := range [][]string{{"SetPassword:7077"}, {"SetUsername:75", "SetPassword:7077", "SetUsername:-"},
+		{"SetPassword:7077", "SetUsername:75"}, {"SetUsername:75"}, {"SetPassword:7077", "SetPassword:-"},
+		{"SetWill:[SetTopicName:74;SetQoS:1]", "SetWill:[SetTopicName:74;SetQoS:2]"},
+		{"SetWill:[SetTopicName:74;SetQoS:2;SetRetain:1]", "SetWill:[SetTopicName:75]", "SetPassword:70"}} {
+		inDomain = true
+		check(1, cs)
+		inDomain = false
 	}
 	r.sample(map[string]string{"case": "H 2 SetSessionPresent:1 SetSessionPresent:0", "check": "after every step all accessors equal the last-write-wins record"})
+}
+
+// lastWriteDomain keeps a history inside the C01 domain as far as its final state
+// is concerned (see domainFix): what the frame cannot carry must not be set.
+func lastWriteDomain(k int, cs []string) []string {
+	out := domainFix(k, cs)
+	if k == 1 {
+		// SetWillDelayInterval before the first SetWill is fine (the final state has a will)
+		return out
+	}
+	return out
 }
 
 func min(a, b int) int {
@@ -1735,6 +1806,23 @@ func init() {
 	oracles["C19"] = oracleC19
 }
 
+// utf8OfLen returns valid UTF-8 text of exactly n bytes made of 1-, 2- and 3-byte characters.
+func utf8OfLen(g *G, n int) []byte {
+	var b []byte
+	for len(b) < n {
+		rest := n - len(b)
+		switch {
+		case rest >= 3 && g.chance(30):
+			b = append(b, []byte("\u20ac")...) // 3 bytes
+		case rest >= 2 && g.chance(40):
+			b = append(b, []byte("\u00e9")...) // 2 bytes
+		default:
+			b = append(b, byte('a'+g.pick(26)))
+		}
+	}
+	return b
+}
+
 func renderBoth(p mq.Packet) (s string, d string, panicked bool) {
 	defer func() {
 		if e := recover(); e != nil {
@@ -1793,6 +1881,11 @@ func oracleC18(r *report, g *G, n int, single string) {
 		lu, lp := 1+g.pick(12), 1+g.pick(12)
 		u1, u2 := g.bytesN(lu), g.bytesN(lu)
 		p1, p2 := g.bytesN(lp), g.bytesN(lp)
+		if g.chance(40) {
+			// valid UTF-8 of equal byte length and different numbers of characters
+			u1, u2 = utf8OfLen(g, lu), utf8OfLen(g, lu)
+			p1, p2 = utf8OfLen(g, lp), utf8OfLen(g, lp)
+		}
 		switch g.pick(5) {
 		case 0: // the secret coincides with the client id
 			filtered = append(filtered, "SetClientID:"+hexs(u1))
@@ -2199,7 +2292,28 @@ func oracleC13(r *report, g *G, n int, single string) {
 		var shared *mq.Publish
 		if c, ok := p.(*mq.Connect); ok {
 			shared = c.Will() // also used directly by other goroutines
+			if shared != nil && g.chance(50) {
+				// the program went on using the will message after attaching it
+				for _, call := range g.calls(3, 1+g.pick(3)) {
+					applyCall(shared, call)
+				}
+			}
 		}
+		// frames read concurrently from private streams, with their sequential results
+		var frames [][]byte
+		var verdicts []string
+		for j := 0; j < 4; j++ {
+			f := g.seqFrame()
+			if j == 0 {
+				f = append([]byte{byte(g.pick(16)), byte(2 + g.pick(3))}, g.bytesN(4)...)[:0]
+				body := g.bytesN(1 + g.pick(6))
+				f = append(append([]byte{byte(g.pick(16))}, vbEnc(uint64(len(body)))...), body...) // reserved type 0
+			}
+			frames = append(frames, f)
+			verdicts = append(verdicts, readOnce(oneChunk(f)).verdict())
+		}
+		want = frameOf(p)
+		wantS, wantD, _ = renderBoth(p)
 		c := "W " + strconv.Itoa(k) + " A" + sp(cs)
 		var wg sync.WaitGroup
 		seeds := make([]int64, workers)
@@ -2244,10 +2358,14 @@ func oracleC13(r *report, g *G, n int, single string) {
 							snapshot(shared)
 						}
 					case 6:
-						// ReadPacket on a private stream
+						// ReadPacket on private streams
 						o := readOnce(oneChunk(want))
 						if o.kind != k {
 							r.fail("concurrent-read", c, o.verdict())
+						}
+						fi := lg.pick(len(frames))
+						if v := readOnce(oneChunk(frames[fi])).verdict(); v != verdicts[fi] {
+							r.fail("concurrent-read", "R 1 "+hexs(frames[fi]), "concurrently "+trunc(v)+" sequentially "+trunc(verdicts[fi]))
 						}
 					}
 				}
@@ -2327,7 +2445,7 @@ func oracleC14(r *report, g *G, n int, single string) {
 		for step := 0; step < 12; step++ {
 			i := g.pick(len(pool))
 			desc := ""
-			switch g.pick(4) {
+			switch g.pick(6) {
 			case 0: // modify through setters
 				k := kindOf(pool[i])
 				for _, call := range g.calls(k, 1+g.pick(3)) {
@@ -2360,6 +2478,21 @@ func oracleC14(r *report, g *G, n int, single string) {
 				desc = "encode/render"
 				frameOf(pool[i])
 				renderBoth(pool[i])
+				// decode some other (possibly odd) frame in between: nobody else may notice
+				readOnce(oneChunk(g.mutate(frames[g.pick(len(frames))])))
+			case 4: // UnmarshalBinary of another frame into this existing packet
+				j := g.pick(len(pool))
+				if kindOf(pool[j]) == kindOf(pool[i]) {
+					_, hl := splitFrame(frames[j])
+					desc = "UnmarshalBinary(" + hexs(frames[j][hl:]) + ") into existing packet"
+					func() {
+						defer func() { recover() }()
+						pool[i].UnmarshalBinary(append([]byte{}, frames[j][hl:]...))
+					}()
+				}
+			case 5: // hand one packet's slices to another through the setters, then decode into the receiver
+				desc = "share slices via setters, then decode into the receiver"
+				shareAndDecode(g, pool, frames, i)
 			case 3: // decode the same frame again: same packet as the first time
 				desc = "decode again"
 				o := readOnce(oneChunk(frames[i]))
@@ -2379,6 +2512,26 @@ func oracleC14(r *report, g *G, n int, single string) {
 			r.eval("pool-step", true, fmt.Sprintf("pool%d-%d-%s", round, step, desc))
 		}
 	}
+	// decoding into packets that came from the constructors
+	for i := 0; i < n/10+5; i++ {
+		witness := mq.NewConnect()
+		c := mq.NewConnect()
+		g.domain = true
+		g.big = false
+		cs := append(g.subset(1, 50), "SetProtocolName:"+hexs(g.bytesN(1+g.pick(4))))
+		g.domain = false
+		f := frameOf(build(1, cs))
+		_, hl := splitFrame(f)
+		func() {
+			defer func() { recover() }()
+			c.UnmarshalBinary(f[hl:])
+		}()
+		if witness.ProtocolName() != "MQTT" || mq.NewConnect().ProtocolName() != "MQTT" || string(mq.VerifProtocolNameVar()) != "MQTT" {
+			r.fail("global-protocol-name-written", fmt.Sprintf("U 1 c %s", hexs(f[hl:])), "decoding into a NewConnect() packet changed the protocol name of other packets")
+			break
+		}
+		r.eval("ctor-decode", true, hexs(f))
+	}
 	if string(mq.VerifProtocolNameVar()) != "MQTT" {
 		r.fail("global-protocol-name-written", "mqtt5", string(mq.VerifProtocolNameVar()))
 	}
@@ -2389,6 +2542,37 @@ func oracleC14(r *report, g *G, n int, single string) {
 		r.fail("global-protocol-name-written", "SetProtocolName", c2.ProtocolName())
 	}
 	r.sample(map[string]string{"case": "U 0 z 010203 + overwrite input", "check": "Data() unchanged"})
+}
+
+// shareAndDecode hands packet i's byte slices to a temporary packet of the same type
+// through the public setters and then decodes frames into that temporary packet:
+// packet i must not change (the decoder must not write through the old slices).
+func shareAndDecode(g *G, pool []mq.Packet, frames [][]byte, i int) {
+	defer func() { recover() }()
+	tmp := newPacket(kindOf(pool[i]))
+	switch a := tmp.(type) {
+	case *mq.Publish:
+		b := pool[i].(*mq.Publish)
+		a.SetCorrelationData(b.CorrelationData())
+		a.SetPayload(b.Payload())
+	case *mq.Connect:
+		b := pool[i].(*mq.Connect)
+		a.SetAuthData(b.AuthData())
+		a.SetPassword(b.Password())
+	case *mq.ConnAck:
+		a.SetAuthData(pool[i].(*mq.ConnAck).AuthData())
+	case *mq.Auth:
+		a.SetAuthData(pool[i].(*mq.Auth).AuthData())
+	default:
+		return
+	}
+	for n := 0; n < 3; n++ {
+		f2 := g.validFrame()
+		if int(f2[0]>>4) == kindOf(tmp) && len(f2) < 3000 {
+			_, h2 := splitFrame(f2)
+			tmp.UnmarshalBinary(append([]byte{}, f2[h2:]...))
+		}
+	}
 }
 
 func scrib(b []byte) {
